@@ -465,6 +465,23 @@ def run_check(prop_id, tier, seed):
                 path = write_replay(prop_id, w['part'], w['case'], out.fail.to_json(), seed, tier, True)
                 violations.append((w['part'], out.fail.sig, path, 'regression of fixed finding %s' % e['id']))
 
+    # 1b. regression corpus: shrunk failing cases once found by this check on deliberately broken trees
+    #     (regress/<id>/*.json, see tools/build_regress.py); they are plain cases and bypass every generator
+    corpus_n = 0
+    rdir = os.path.join(env.VERIF_DIR, 'regress', prop_id)
+    for name in sorted(os.listdir(rdir)) if os.path.isdir(rdir) else ():
+        if not name.endswith('.json'):
+            continue
+        with open(os.path.join(rdir, name)) as f:
+            payload = json.load(f)
+        part = prop.part(payload['part'])
+        reset_library_state()
+        out = part.check(payload['case'])
+        corpus_n += 1
+        if out.fail is not None and not (hasattr(part, 'known_class') and part.known_class(payload['case'], out.fail) in open_classes):
+            violations.append((payload['part'], out.fail.sig, os.path.join('regress', prop_id, name),
+                               'regression corpus case (origin: %s)' % payload.get('origin')))
+
     # 2. parts
     parts = prop.parts()
     tasks = []
@@ -592,6 +609,7 @@ def run_check(prop_id, tier, seed):
                 'slowest_shard_wall_s': round(merged[p.name]['wall'], 2),
             } for p in parts},
         'known_finding_witnesses_replayed': regress,
+        'regression_corpus_replayed': corpus_n,
         'signatures': [{'part': v[0], 'sig': v[1], 'replay': v[2]} for v in violations],
     }
     evidence = {
